@@ -18,6 +18,8 @@ DOC = {
         'C16.R3': 'every string fragment glob_to_regex emits for an operator starts with a character of the stop set (magic_chars + {?,*}); literal characters go through escape()',
         'C16.R4': 'the fixed prefix is lower-cased iff is_partial_match lower-cases the candidate (both controlled by case_insensitive)',
         'C16.R6': 'Pattern::regex_with anchors the full-match regex at both ends (^...$) and the prefix regex at the start (^...); matches / matches_partially use the anchored one, matches_prefix the prefix one',
+        'C16.R8': 'the exclude-side pruning predicate of matches_dir holds for the whole subtree (re-evaluates C09.R9)',
+        'C16.R7': 'glob_to_regex: inside a bracket group the literal-character parser refuses exactly the delimiters of that group (open tag, separator, close tag taken from the group\'s own parser), no more and no fewer; at top level it refuses nothing; one such arm per Scope variant',
         'C16.R5': 'the glob translator joins every parsed token and every alternative: no element-dropping or reordering adaptor (filter, skip, take, dedup, unique, retain, sort, ...) between the parser and the joined regex',
     },
     'not_decided': 'the glob semantics themselves; the regex crate; conservativeness for every glob/path pair (needs bounded-exhaustive testing)',
@@ -34,6 +36,12 @@ def run(ctx):
     r4(ctx, lib)
     r5(ctx, lib)
     r6(ctx, lib)
+    r7(ctx, lib)
+    from . import c09
+    c09.r9(ctx, 'C16.R8')
+    if ctx.tier == 'thorough' and not getattr(ctx, 'sibling', None):
+        from .. import sweep
+        sweep.units(ctx, 'C16.R1')
 
 
 def r1(ctx, lib):
@@ -236,3 +244,114 @@ def r6(ctx, lib):
         cs = mb.calls(r'regex::Regex::%s$' % meth)
         ok = len(cs) == 1 and fld in backslice(mb, [cs[0].args[0]]).field_names() and cs[0].dest[0] == 0
         ctx.check(ok, rule, mb.path, mb.where(), '%s = %s.%s(..)' % (fn, fld, meth), '%s does not use %s.%s' % (fn, fld, meth))
+
+
+def _str_lit(v):
+    m = re.match(r'^(?:const )?"(.*)"$', v or '', re.S)
+    if not m:
+        return None
+    return re.sub(r"\\(u\{[0-9a-fA-F]+\}|.)", lambda k: unesc('\\' + k.group(1)), m.group(1), flags=re.S)
+
+
+def r7(ctx, lib):
+    """scope/delimiter agreement in the glob parser"""
+    rule = 'C16.R7'
+    g = ctx.need_body(rule, 'pattern::Pattern::glob_to_regex')
+    if g is None:
+        return
+    bodies = [g] + [lib.body(c) for c in lib.closures_of(g.path)]
+    # 1. delimiters per scope, from the group parsers: separated_list0(tag(SEP), |g| glob_to_regex(Scope::X, g)) inside tuple((tag(OPEN), .., tag(CLOSE)))
+    delims = {}
+    for b in bodies:
+        for sl0 in b.calls(r'nom::multi::separated_list[01]$'):
+            k, sepc = direct_def(b, sl0.args[0])
+            sep = _str_lit(const_val(sepc.args[0])) if k == 'call' and sepc.matches(r'::tag$') and op_const(sepc.args[0]) else None
+            scope = None
+            cp = lib.closure_of_type(b.local_ty(op_local(sl0.args[1]))) if op_local(sl0.args[1]) is not None else None
+            cb = lib.body(cp) if cp else None
+            if cb is not None:
+                for rc in cb.calls(r'Pattern::glob_to_regex$'):
+                    kd = direct_def(cb, rc.args[0])
+                    if kd[0] == 'stmt' and kd[1]['rv']['k'] == 'agg':
+                        scope = kd[1]['rv'].get('variant')
+            if sep is None or scope is None:
+                ctx.violation(rule, '%s|group-parser' % b.path, sl0.where(), 'a separated list in the glob parser whose separator tag / recursive scope cannot be read (sep=%r scope=%r)' % (sep, scope))
+                continue
+            # the tags that sit in the same tuple as the list
+            tags = set()
+            for blk in b.blocks:
+                for st in blk['stmts']:
+                    rv = st['rv']
+                    if rv['k'] == 'agg' and rv.get('ak') == 'tuple' and any(op_local(o) == sl0.dest[0] for o in rv['ops']):
+                        for o in rv['ops']:
+                            kk = direct_def(b, o)
+                            if kk[0] == 'call' and kk[1].matches(r'::tag$') and op_const(kk[1].args[0]):
+                                tags.add(_str_lit(const_val(kk[1].args[0])))
+            d = delims.setdefault(scope, set())
+            d |= set(sep) | {ch for t in tags if t for ch in t}
+    ctx.floor(rule, 'bracket-group parsers (separated lists recursing with a Scope)', len(delims), 2, g.where())
+    # 2. refuse sets per scope, from the literal-character parser
+    variants = [v['name'] if isinstance(v, dict) else v for v in (lib.adts.get('pattern::Scope', {}).get('variants') or [])]
+    if not variants:
+        ctx.missing(rule, 'enum pattern::Scope', g.where())
+        return
+
+    def scopes_where(op, depth=0):
+        """set of Scope variants for which a boolean operand is true, or None when it is not a function of `scope` in a known form"""
+        if depth > 6:
+            return None
+        k = direct_def(g, op)
+        if k[0] == 'call' and k[1].matches(r'<pattern::Scope as std::cmp::PartialEq>::(eq|ne)$|^std::cmp::PartialEq::(eq|ne)$') and 'Scope' in g.local_ty(op_local(k[1].args[0]) or 0):
+            named = None
+            for a in k[1].args:
+                for v in cvals(lib, g, a):
+                    m = re.search(r'Scope::(\w+)$', v or '')
+                    if m:
+                        named = m.group(1)
+            if named is None:
+                return None
+            return {named} if k[1].path.endswith('::eq') else set(variants) - {named}
+        if k[0] == 'stmt':
+            rv = k[1]['rv']
+            if rv['k'] == 'un' and rv.get('op') == 'Not':
+                x = scopes_where(rv['a'] if 'a' in rv else rv.get('op1'), depth + 1)
+                return None if x is None else set(variants) - x
+            if rv['k'] == 'bin' and rv.get('op') in ('BitOr', 'BitAnd'):
+                x, y = scopes_where(rv['a'], depth + 1), scopes_where(rv['b'], depth + 1)
+                if x is None or y is None:
+                    return None
+                return x | y if rv['op'] == 'BitOr' else x & y
+        if k[0] == 'const':
+            cb = const_bool({'k': k[1]}) if isinstance(k[1], dict) else None
+            if cb is not None:
+                return set(variants) if cb else set()
+        return None
+
+    refuse = {}
+    anyc = set()
+    for cond in g.calls(r'nom::combinator::cond$'):
+        sc = scopes_where(cond.args[0])
+        if sc is None:
+            ctx.violation(rule, '%s|cond-not-by-scope' % g.path, cond.where(), 'a conditional literal-character parser whose condition is not a recognised boolean function of `scope` (==, !=, !, |, &): failing closed')
+            continue
+        kp = direct_def(g, cond.args[1])
+        if kp[0] == 'call' and kp[1].matches(r'complete::none_of$') and op_const(kp[1].args[0]):
+            for v in sc:
+                refuse.setdefault(v, set()).update(_str_lit(const_val(kp[1].args[0])) or '')
+        elif kp[0] == 'const' and 'anychar' in str(kp[1]):
+            for v in sc:
+                refuse.setdefault(v, set())
+                anyc.add(v)
+        else:
+            ctx.violation(rule, '%s|cond-parser' % g.path, cond.where(), 'scopes %s: literal-character parser is neither anychar nor none_of(<constant>)' % sorted(sc))
+    for v in anyc:
+        refuse[v] = set()
+    for v in variants:
+        want = delims.get(v, set()) if v != 'TopLevel' else set()
+        got = refuse.get(v)
+        ctx.check(got is not None and got == want, rule, '%s|refuse-set|%s' % (g.path, v), g.where(),
+                  'scope %s: literal characters refused = %s = delimiters of that group' % (v, ''.join(sorted(want)) or 'none'),
+                  'scope %s: the literal-character parser refuses %s but the group is delimited by %s: %s' % (
+                      v, repr(''.join(sorted(got))) if got is not None else 'nothing (no arm)', repr(''.join(sorted(want))),
+                      'a refused non-delimiter cannot appear in the group at all, the group stops parsing and the whole glob silently degrades to a literal' if got and got - want else
+                      'an accepted delimiter is swallowed as a literal and the group never closes'))
